@@ -50,3 +50,86 @@ def replay_file(c, path):
     payload = json.load(open(path))
     res = vlib.run_harness("dkv", payload)
     c.add_harness(res, payload, "replay " + path)
+
+
+# ---------------------------------------------------------------- directed scripts ----
+# Hand-chosen action strings (the witnesses of DESIGN 7 and of defects found while building); TLC elaborates each
+# through Dkv.tla's own actions (computing oracle / demanded values), the replayer runs it on the real DB.
+def _w(k, v):
+    return dict(a="W", k=k, v=v)
+
+
+def _s(a, **kw):
+    return dict(a=a, **kw)
+
+
+ALLP = "{1, 2, 3}"
+SCRIPTS = {
+    # restored sequence counter too small => a post-restore write loses against the older flushed entry (#6)
+    "endseq-restore-write": [_w(3, 1), _w(1, 1), _w(2, 1), _s("FlushStart"), _s("FlushSwap"), _s("Checkpoint"), _s("SaveWal", id=1),
+                             _s("SaveDoc", id=1), _s("Reopen", id=1, crash=True), _w(2, 2), _w(1, 2), _w(3, 2), _s("FlushStart"),
+                             _s("FlushSwap"), _s("GetBegin", k=2), _s("GetEnd"), _s("ScanBegin", p=ALLP), _s("ScanEnd")],
+    # checkpoint while a flush is in flight, flush swap, second checkpoint (#7)
+    "ckpt-during-flush": [_w(1, 1), _w(2, 1), _w(3, 1), _s("FlushStart"), _s("Checkpoint"), _s("FlushSwap"), _w(1, 2),
+                          _s("Checkpoint"), _s("SaveWal", id=1), _s("SaveDoc", id=1), _s("SaveWal", id=2), _s("SaveDoc", id=2)],
+    # memtable rotation with the flush held: newest memtable must win (#1); then two overlapping L0 tables (#2)
+    "rotate-held-reads": [_w(1, 1), _w(2, 1), _w(3, 1), _w(1, 2), _s("GetBegin", k=1), _s("GetEnd"), _w(2, 2), _w(3, 2),
+                          _s("FlushStart"), _s("FlushSwap"), _s("FlushStart"), _s("FlushSwap"), _s("GetBegin", k=1), _s("GetEnd"),
+                          _s("ScanBegin", p=ALLP), _s("ScanEnd")],
+    # delete after the value was flushed: the tombstone in the memtable must mask it in scans (#4)
+    "tombstone-masks-flushed": [_w(1, 1), _w(2, 1), _w(3, 1), _s("FlushStart"), _s("FlushSwap"), _w(1, 0), _s("ScanBegin", p="{1, 2}"),
+                                _s("ScanEnd"), _s("GetBegin", k=1), _s("GetEnd")],
+    # flush swap between the two captures of a read (#5)
+    "swap-inside-read": [_w(1, 1), _w(2, 1), _w(3, 1), _s("GetBegin", k=2), _s("FlushStart"), _s("FlushSwap"), _s("GetEnd"),
+                         _w(1, 2), _w(2, 2), _w(3, 2), _s("ScanBegin", p=ALLP), _s("FlushStart"), _s("FlushSwap"), _s("ScanEnd")],
+    # re-open in the same directory, write and flush: table files of the checkpoint must survive (#8), then GC (same process)
+    "reopen-flush-gc": [_w(1, 1), _w(2, 1), _w(3, 1), _s("FlushStart"), _s("FlushSwap"), _s("Checkpoint"), _s("SaveWal", id=1), _s("SaveDoc", id=1),
+                        _s("Reopen", id=1, crash=False), _s("GcRun"), _w(1, 2), _w(2, 2), _w(3, 2), _s("FlushStart"), _s("FlushSwap"), _s("GcRun"),
+                        _s("GetBegin", k=3), _s("GetEnd")],
+    # retention drops checkpoint 1: its WAL goes, checkpoint 2 keeps restoring
+    "retain-newest": [_w(1, 1), _s("Checkpoint"), _s("SaveWal", id=1), _s("SaveDoc", id=1), _w(2, 1), _w(3, 1), _w(1, 2), _s("FlushStart"),
+                      _s("FlushSwap"), _s("Checkpoint"), _s("SaveWal", id=2), _s("SaveDoc", id=2), _s("Retain", ids="{2}"), _s("GcRun"),
+                      _s("CompactPick"), _s("GcRun")],
+}
+
+
+def _tla_step(st):
+    a = st["a"]
+    if a == "W":
+        return "Write(%d, %d)" % (st["k"], st["v"])
+    if a == "GetBegin":
+        return "GetBegin(%d)" % st["k"]
+    if a == "ScanBegin":
+        return "ScanBegin(%s)" % st["p"]
+    if a in ("SaveWal", "SaveDoc"):
+        return "(\\E sv \\in saves : sv.id = %d /\\ %s(sv))" % (st["id"], a)
+    if a == "Retain":
+        return "Retain(%s)" % st["ids"]
+    if a == "Reopen":
+        return "Reopen(%d, %s)" % (st["id"], "TRUE" if st["crash"] else "FALSE")
+    return a
+
+
+def elaborate(name, script, consts_):
+    """-> behaviour (list of step dicts with demanded values) of the script under the intended design"""
+    steps = "\n".join("  [] Len(hist) = %d -> %s" % (i, _tla_step(st)) for i, st in enumerate(script))
+    mod = ("---- MODULE DkvScript ----\nEXTENDS Dkv\nScriptNext == CASE Len(hist) >= %d -> FALSE\n%s\n"
+           "ScriptSpec == Init /\\ [][ScriptNext]_vars\n"
+           "ScriptDump == (Len(hist) >= %d) => PrintT(<<\"BEHAVIOUR\", ToJson(hist)>>)\n====\n" % (len(script), steps, len(script)))
+    r = vlib.run_tlc("DkvScript", cfg=dict(spec="ScriptSpec", constants=consts_, invariants=["ScriptDump"]), workers=1, timeout=120,
+                     files={"DkvScript.tla": mod}, name="DkvScript-" + name)
+    if not r.behaviours:
+        raise vlib.MachineryError("script %s is not a behaviour of Dkv.tla (stopped early): %s\n%s" % (name, r.error, r.out[-1500:]))
+    return r.behaviours[0], r
+
+
+def run_scripts(c, check_restore):
+    cs = consts(MaxOps=12, MaxReads=6, MaxCkpt=3, MaxReopen=2, MaxRetain=2, MaxGc=4)
+    behs = []
+    for name, sc in SCRIPTS.items():
+        b, r = elaborate(name, sc, cs)
+        behs.append(b)
+    for conc in (0, 1):
+        payload = dict(property=c.prop, seed=0, config=harness_cfg(cs, conc, CheckRestore=check_restore, Chunk=1), behaviours=behs)
+        res = vlib.run_harness("dkv", payload, timeout=900)
+        c.add_harness(res, payload, "directed scripts (%d, conc %d): %s" % (len(behs), conc, " ".join(SCRIPTS)))
